@@ -315,7 +315,16 @@ pub fn run_one(run: u64, seed: u64) -> RunOut {
     let hops = 1 + rng.usize_below(3);
     let mut cfgs: Vec<(remoc::Cfg, remoc::Cfg)> = (0..hops).map(|_| (rch_cfg(&mut rng), rch_cfg(&mut rng))).collect();
     let tiny_credit = rng.chance(25);
+    // the limit on ports per received value only guards against *unexpected* ports: a value that announces its
+    // halves must get all of them, buffered or streamed, however small the configured limit is
+    let few_ports = rng.chance(30);
     for (a, b) in cfgs.iter_mut() {
+        if few_ports {
+            // (not below 2: the value sent over a forwarded bin channel carries two halves, and the endpoints that
+            // forward raw ports apply the configured limit as it is)
+            a.max_received_ports = *rng.pick(&[2usize, 3, 4]);
+            b.max_received_ports = *rng.pick(&[2usize, 3, 4]);
+        }
         if tiny_credit {
             a.receive_buffer = *rng.pick(&[8u32, 9, 10, 11, 12, 16]);
             b.receive_buffer = *rng.pick(&[8u32, 9, 10, 11, 12, 16]);
